@@ -10,11 +10,13 @@ use std::io::Write;
 pub struct Rec {
     pub f: std::io::BufWriter<std::fs::File>,
     pub events: u64,
+    /// model-free monitors (C01, C04, C09, C16) evaluated on every event any driver records
+    pub monitor_hits: Vec<J>,
 }
 
 impl Rec {
     pub fn new(path: &str) -> Self {
-        Rec { f: std::io::BufWriter::new(std::fs::File::create(path).expect("create trace")), events: 0 }
+        Rec { f: std::io::BufWriter::new(std::fs::File::create(path).expect("create trace")), events: 0, monitor_hits: vec![] }
     }
     pub fn write(&mut self, ev: &J) {
         // TLC's JSON reader rejects null: drop null-valued keys
@@ -29,6 +31,13 @@ impl Rec {
         writeln!(self.f, "{}", ev).unwrap();
         self.events += 1;
     }
+    /// hand the monitor hits over to the report
+    pub fn finish(&mut self, rep: &mut Report) {
+        rep.add("events_recorded", self.events);
+        for h in self.monitor_hits.drain(..) {
+            rep.violation(h["property"].as_str().unwrap_or(""), h["class"].as_str().unwrap_or(""), h["features"].clone(), h["replay"].clone());
+        }
+    }
     pub fn reset(&mut self, run: u64, trace: bool, warn: bool, meta: J) -> Sess {
         self.write(&json!({"run": run, "c": call_reset(trace, warn), "dom": true, "panic": false,
             "res": {"ok": true, "kind": "", "hl": false, "line": [], "tok": 0}, "out": [], "snap": {}, "edit": {"some": false, "k": [], "toks": []}, "meta": meta}));
@@ -37,6 +46,12 @@ impl Rec {
     pub fn call(&mut self, run: u64, s: &mut Sess, c: J) -> J {
         let mut ev = s.apply(&c);
         ev["run"] = json!(run);
+        for (prop, class, feat) in crate::sessrows::monitors(&ev) {
+            if self.monitor_hits.len() < 200 {
+                self.monitor_hits.push(json!({"property": prop, "class": class, "features": feat,
+                    "replay": {"run": run, "call": crate::sessrows::call_text(&ev["c"]), "event_index": self.events, "event": ev}}));
+            }
+        }
         self.write(&ev);
         ev
     }
@@ -85,7 +100,7 @@ pub fn reply_pool(rng: &mut StdRng) -> String {
 }
 
 /// `progs`: generated structured programs, run to completion.
-pub fn record_programs(seed: u64, n: usize, out: &str, with_input: bool, trace: bool, warn: bool) {
+pub fn record_programs(seed: u64, n: usize, out: &str, with_input: bool, trace: bool, warn: bool, rep: &mut Report) {
     let mut rec = Rec::new(out);
     for i in 0..n {
         let mut rng = StdRng::seed_from_u64(seed.wrapping_mul(1_000_003).wrapping_add(i as u64));
@@ -98,5 +113,561 @@ pub fn record_programs(seed: u64, n: usize, out: &str, with_input: bool, trace: 
         let mut rng2 = StdRng::seed_from_u64(seed ^ (i as u64) << 20);
         let mut replies = || reply_pool(&mut rng2);
         run_program(&mut rec, i as u64, &mut s, &lines, &mut replies, 1500);
+        rep.count("programs");
+        rep.sample(json!({"program": lines}));
     }
+    rec.finish(rep);
+}
+
+// ---------------------------------------------------------------------------
+// Differential drivers: two (or more) runs of the REAL interpreter compared with
+// each other (the monitors M_P of DESIGN.md §3.4).  Every run is also written to
+// the trace, so TLC validates each of them against the model.
+
+use crate::report::Report;
+
+/// What a program run shows to its user: printed text, REENTER / EXTRA IGNORED
+/// notices, input requests and the final outcome -- BREAK notices excluded.
+#[derive(Default, Clone, PartialEq, Debug)]
+pub struct Transcript {
+    pub items: Vec<String>,
+}
+
+impl Transcript {
+    pub fn absorb(&mut self, ev: &J) {
+        if ev["panic"] == true {
+            self.items.push(format!("PANIC {}", ev["panic_msg"]));
+            return;
+        }
+        for o in ev["out"].as_array().into_iter().flatten() {
+            match o["t"].as_str().unwrap_or("") {
+                "print" => self.items.push(format!("P:{}", crate::model::text_of(&o["text"]))),
+                "reenter" => self.items.push("REENTER".to_string()),
+                "extra" => self.items.push("EXTRA".to_string()),
+                _ => {}
+            }
+        }
+        if ev["res"]["ok"] == false {
+            self.items.push(format!("ERR:{}@{}", ev["res"]["kind"].as_str().unwrap_or(""), crate::model::text_of(&ev["res"]["line"])));
+        }
+        // an input request counts when it is answered (a request interrupted by a host
+        // break is simply issued again after CONT)
+        if ev["c"]["k"] == "provide" {
+            self.items.push(format!("INPUT<-{}", crate::model::text_of(&ev["c"]["text"])));
+        }
+    }
+}
+
+fn state_digest(ev: &J) -> J {
+    json!({"vars": ev["snap"]["vars"], "arrays": ev["snap"]["arrays"], "mode": ev["snap"]["mode"]})
+}
+
+pub struct RunCfg<'a> {
+    pub lines: &'a [String],
+    pub replies: &'a [String],
+    pub trace: bool,
+    pub warn: bool,
+    /// probability of a host break at each turn boundary (0 = never)
+    pub break_p: f64,
+    pub inspections: &'a [&'a str],
+    pub budget: usize,
+    pub seed: Option<u64>,
+}
+
+/// Load and RUN a program under the turn-taking protocol; at every STOP the host
+/// types CONT; with break_p > 0 the host also breaks in, inspects and continues.
+/// Returns (transcript, final event).
+pub fn run_scheduled(rec: &mut Rec, run: u64, cfg: &RunCfg, rng: &mut StdRng, meta: J) -> (Transcript, J) {
+    let mut s = rec.reset(run, cfg.trace, cfg.warn, meta);
+    let mut t = Transcript::default();
+    let mut last = json!({});
+    if let Some(seed) = cfg.seed {
+        rec.call(run, &mut s, call_randomize(seed));
+    }
+    for l in cfg.lines {
+        last = rec.call(run, &mut s, call_submit(l));
+        if s.dead {
+            t.absorb(&last);
+            return (t, last);
+        }
+    }
+    last = rec.call(run, &mut s, call_submit("RUN"));
+    t.absorb(&last);
+    let mut reply_i = 0;
+    let mut steps = 0;
+    let mut conts = 0;
+    loop {
+        if s.dead {
+            break;
+        }
+        steps += 1;
+        if steps > cfg.budget {
+            if s.mode() != "idle" {
+                rec.call(run, &mut s, call_simple("break"));
+            }
+            t.items.push("BUDGET".to_string());
+            break;
+        }
+        let mode = s.mode();
+        // a host break at this turn boundary?
+        if (mode == "running" || mode == "awaiting") && cfg.break_p > 0.0 && rng.gen_bool(cfg.break_p) {
+            rec.call(run, &mut s, call_simple("break"));
+            let n = rng.gen_range(0..=2);
+            for _ in 0..n {
+                if cfg.inspections.is_empty() || s.dead {
+                    break;
+                }
+                let ins = cfg.inspections[rng.gen_range(0..cfg.inspections.len())];
+                // reading an array (or calling an undefined function, which is an array read) creates
+                // it: only inspect arrays and functions that exist, so the inspection assigns nothing
+                let snap = abasic_core::verif::snapshot(&s.interp);
+                let exists = |name: &str| snap.arrays.iter().any(|a| a.name == name) || snap.functions.iter().any(|f| f.name == name);
+                let needed: Vec<&str> = ["P(", "Q(", "R$(", "FNA(", "FNB("].iter().filter(|n| ins.contains(**n)).map(|n| n.trim_end_matches('(')).collect();
+                if !needed.iter().all(|n| exists(n)) {
+                    continue;
+                }
+                rec.call(run, &mut s, call_submit(ins));
+                // an inspection is one statement; if it is still running (multi-statement), finish it
+                let mut guard = 0;
+                while !s.dead && s.mode() == "running" && guard < 50 {
+                    rec.call(run, &mut s, call_simple("continue"));
+                    guard += 1;
+                }
+            }
+            if s.dead {
+                break;
+            }
+            last = rec.call(run, &mut s, call_submit("CONT"));
+            t.absorb(&last);
+            continue;
+        }
+        match mode {
+            "running" => {
+                last = rec.call(run, &mut s, call_simple("continue"));
+                t.absorb(&last);
+            }
+            "awaiting" => {
+                let r = cfg.replies.get(reply_i).cloned().unwrap_or_else(|| "1".to_string());
+                reply_i += 1;
+                last = rec.call(run, &mut s, call_provide(&r));
+                t.absorb(&last);
+            }
+            "idle" => {
+                // stopped at a STOP statement (breakpoint pending, no error): the host continues
+                let stopped = last["res"]["ok"] == true && last["snap"]["bp"]["some"] == true
+                    && last["out"].as_array().map(|o| o.iter().any(|x| x["t"] == "break")).unwrap_or(false);
+                if stopped && conts < 20 {
+                    conts += 1;
+                    last = rec.call(run, &mut s, call_submit("CONT"));
+                    t.absorb(&last);
+                } else {
+                    break;
+                }
+            }
+            _ => break,
+        }
+    }
+    (t, last)
+}
+
+fn gen_program(seed: u64, i: u64, with_input: bool, with_stop: bool, fail_rate: f64) -> Vec<String> {
+    let mut rng = StdRng::seed_from_u64(seed.wrapping_mul(1_000_003).wrapping_add(i));
+    let mut g = Gen::new(&mut rng);
+    g.with_input = with_input;
+    g.with_stop = with_stop;
+    g.fail_rate = fail_rate;
+    g.program()
+}
+
+fn gen_replies(rng: &mut StdRng, n: usize) -> Vec<String> {
+    (0..n).map(|_| reply_pool(rng)).collect()
+}
+
+const INSPECTIONS: &[&str] = &[
+    "PRINT A;B;C", "PRINT S$;T$", "PRINT P(1);Q(1,1)", "PRINT 1/0", "PRINT \"x\"+1", "LIST", "PRINT FNA(\"x\")",
+    "PRINT FNB(1/0)", "PRINT R$(99)", "PRINT I;J", "?", "PRINT (", "REM just looking",
+];
+
+/// C07: (program, schedule of breaks + inspections) vs (program, no breaks).
+pub fn record_breakcont(seed: u64, n: usize, out: &str, rep: &mut Report) {
+    let mut rec = Rec::new(out);
+    for i in 0..n as u64 {
+        let lines = gen_program(seed, i, true, true, 0.04);
+        let mut rng = StdRng::seed_from_u64(seed ^ (i << 17) ^ 0xC07);
+        let replies = gen_replies(&mut rng, 40);
+        let base = RunCfg { lines: &lines, replies: &replies, trace: false, warn: false, break_p: 0.0, inspections: &[], budget: 1200, seed: Some(7) };
+        let (ta, la) = run_scheduled(&mut rec, 2 * i, &base, &mut rng, json!({"driver": "breakcont", "role": "uninterrupted", "program": lines}));
+        let p = [0.03, 0.1, 0.3][rng.gen_range(0..3)];
+        let sched = RunCfg { break_p: p, inspections: INSPECTIONS, budget: 4000, ..base };
+        let (tb, lb) = run_scheduled(&mut rec, 2 * i + 1, &sched, &mut rng, json!({"driver": "breakcont", "role": "interrupted", "program": lines}));
+        rep.count("pairs");
+        if ta.items.last().map(|s| s == "BUDGET").unwrap_or(false) || tb.items.last().map(|s| s == "BUDGET").unwrap_or(false) {
+            rep.count("pairs_over_budget");
+            continue;
+        }
+        if ta != tb || state_digest(&la) != state_digest(&lb) {
+            let first = ta.items.iter().zip(&tb.items).position(|(a, b)| a != b).unwrap_or(ta.items.len().min(tb.items.len()));
+            rep.violation("C07", "break_cont_changes_behaviour",
+                json!({"transcripts_equal": ta == tb}),
+                json!({"program": lines, "replies": replies, "break_p": p, "seed": seed, "index": i, "first_difference_at": first,
+                       "uninterrupted": ta.items, "interrupted": tb.items}));
+        } else if ta.items.len() > 1 {
+            rep.count("pairs_nontrivial");
+        }
+        rep.sample(json!({"program": lines, "uninterrupted_transcript": ta.items}));
+    }
+    rec.finish(rep);
+}
+
+/// C17: the same program and replies under the four trace/warn configurations.
+pub fn record_flags4(seed: u64, n: usize, out: &str, rep: &mut Report) {
+    let mut rec = Rec::new(out);
+    for i in 0..n as u64 {
+        let lines = gen_program(seed, i, true, false, 0.04);
+        let mut rng = StdRng::seed_from_u64(seed ^ (i << 17) ^ 0xC17);
+        let replies = gen_replies(&mut rng, 40);
+        let mut results = vec![];
+        for (k, (tr, wn)) in [(false, false), (true, false), (false, true), (true, true)].iter().enumerate() {
+            let cfg = RunCfg { lines: &lines, replies: &replies, trace: *tr, warn: *wn, break_p: 0.0, inspections: &[], budget: 1200, seed: Some(11) };
+            let (t, l) = run_scheduled(&mut rec, 4 * i + k as u64, &cfg, &mut rng, json!({"driver": "flags4", "trace": tr, "warn": wn, "program": lines}));
+            results.push((t, state_digest(&l)));
+        }
+        rep.count("programs");
+        for k in 1..4 {
+            if results[k] != results[0] {
+                rep.violation("C17", "flags_change_behaviour", json!({"config": k}),
+                    json!({"program": lines, "replies": replies, "plain": results[0].0.items, "with_flags": results[k].0.items}));
+                break;
+            }
+        }
+        if results[0].0.items.len() > 1 {
+            rep.count("programs_nontrivial");
+        }
+        rep.sample(json!({"program": lines}));
+    }
+    rec.finish(rep);
+}
+
+const HISTORY: &[&str] = &[
+    "A = 5", "S$ = \"old\"", "DIM P(3)", "DIM Z(2,2)", "P(1) = 9", "FOR I = 1 TO 5", "FOR Q = 1 TO 2", "READ A", "READ S$",
+    "GOSUB 20", "GOTO 30", "RUN", "CONT", "NEXT I", "RETURN", "PRINT 1/0", "X = ", "RESTORE", "TRACE", "NOTRACE", "LIST",
+    "PRINT FNA(2)", "INPUT B", "STOP", "END", "5 REM", "5",
+];
+
+/// C10: RUN after an arbitrary session history vs RUN in a fresh interpreter
+/// holding the same program, the same generator state and the same flags.
+pub fn record_runfresh(seed: u64, n: usize, out: &str, rep: &mut Report) {
+    let mut rec = Rec::new(out);
+    for i in 0..n as u64 {
+        let lines = gen_program(seed, i, true, true, 0.04);
+        let mut rng = StdRng::seed_from_u64(seed ^ (i << 17) ^ 0xC10);
+        let replies = gen_replies(&mut rng, 40);
+        let (tr, wn) = (rng.gen_bool(0.3), rng.gen_bool(0.3));
+        // interpreter X: program, then a history
+        let run = 2 * i;
+        let mut x = rec.reset(run, tr, wn, json!({"driver": "runfresh", "role": "history", "program": lines}));
+        rec.call(run, &mut x, call_randomize(rng.gen_range(0..1u64 << 33)));
+        for l in &lines {
+            rec.call(run, &mut x, call_submit(l));
+        }
+        let steps = rng.gen_range(1..=8);
+        let mut history = vec![];
+        for _ in 0..steps {
+            if x.dead {
+                break;
+            }
+            match x.mode() {
+                "idle" => {
+                    let h = HISTORY[rng.gen_range(0..HISTORY.len())];
+                    history.push(h.to_string());
+                    rec.call(run, &mut x, call_submit(h));
+                }
+                "running" => {
+                    let k = rng.gen_range(0..30);
+                    for _ in 0..k {
+                        if x.dead || x.mode() != "running" {
+                            break;
+                        }
+                        rec.call(run, &mut x, call_simple("continue"));
+                    }
+                    if !x.dead && x.mode() == "running" && rng.gen_bool(0.6) {
+                        history.push("<break>".to_string());
+                        rec.call(run, &mut x, call_simple("break"));
+                    }
+                }
+                "awaiting" => {
+                    if rng.gen_bool(0.7) {
+                        let r = reply_pool(&mut rng);
+                        history.push(format!("<reply {}>", r));
+                        rec.call(run, &mut x, call_provide(&r));
+                        // maybe break before the reply is consumed
+                        if !x.dead && rng.gen_bool(0.5) {
+                            history.push("<break>".to_string());
+                            rec.call(run, &mut x, call_simple("break"));
+                        }
+                    } else {
+                        history.push("<break>".to_string());
+                        rec.call(run, &mut x, call_simple("break"));
+                    }
+                }
+                _ => break,
+            }
+        }
+        // bring X to idle
+        let mut guard = 0;
+        while !x.dead && x.mode() != "idle" && guard < 5 {
+            if x.mode() == "new" {
+                break;
+            }
+            rec.call(run, &mut x, call_simple("break"));
+            guard += 1;
+        }
+        if x.dead || x.mode() != "idle" {
+            rep.count("histories_unusable");
+            continue;
+        }
+        let snap = abasic_core::verif::snapshot(&x.interp);
+        // the edits in the history may have changed the program: the reference is whatever X holds now
+        let listing: Vec<String> = crate::lexrows::list_program(&mut x.interp).unwrap_or_default().iter().map(|l| l.trim_end_matches('\n').to_string()).collect();
+        let mut ta = Transcript::default();
+        let mut last_a = rec.call(run, &mut x, call_submit("RUN"));
+        ta.absorb(&last_a);
+        let mut ri = 0;
+        let mut steps_a = 0;
+        while !x.dead && x.mode() != "idle" && steps_a < 1500 {
+            last_a = if x.mode() == "awaiting" {
+                let r = replies.get(ri).cloned().unwrap_or("1".to_string());
+                ri += 1;
+                rec.call(run, &mut x, call_provide(&r))
+            } else if x.mode() == "running" {
+                rec.call(run, &mut x, call_simple("continue"))
+            } else {
+                break;
+            };
+            ta.absorb(&last_a);
+            steps_a += 1;
+        }
+        // interpreter Y: fresh, same program text, same generator state, same flags
+        let run_b = 2 * i + 1;
+        let mut y = rec.reset(run_b, snap.enable_tracing, snap.enable_warnings, json!({"driver": "runfresh", "role": "fresh", "program": listing}));
+        rec.call(run_b, &mut y, call_randomize(snap.seed));
+        for l in &listing {
+            rec.call(run_b, &mut y, call_submit(l));
+        }
+        let mut tb = Transcript::default();
+        let mut last_b = rec.call(run_b, &mut y, call_submit("RUN"));
+        tb.absorb(&last_b);
+        let mut ri = 0;
+        let mut steps_b = 0;
+        while !y.dead && y.mode() != "idle" && steps_b < 1500 {
+            last_b = if y.mode() == "awaiting" {
+                let r = replies.get(ri).cloned().unwrap_or("1".to_string());
+                ri += 1;
+                rec.call(run_b, &mut y, call_provide(&r))
+            } else if y.mode() == "running" {
+                rec.call(run_b, &mut y, call_simple("continue"))
+            } else {
+                break;
+            };
+            tb.absorb(&last_b);
+            steps_b += 1;
+        }
+        rep.count("histories");
+        if steps_a >= 1500 || steps_b >= 1500 {
+            rep.count("histories_over_budget");
+            if steps_a != steps_b {
+                rep.violation("C10", "run_after_history_differs", json!({"what": "length"}), json!({"program": listing, "history": history}));
+            }
+            continue;
+        }
+        if ta != tb || state_digest(&last_a) != state_digest(&last_b) {
+            rep.violation("C10", "run_after_history_differs", json!({"transcripts_equal": ta == tb}),
+                json!({"program": listing, "history": history, "replies": replies, "after_history": ta.items, "fresh": tb.items}));
+        } else if ta.items.len() > 1 {
+            rep.count("histories_nontrivial");
+        }
+        rep.sample(json!({"history": history, "program_lines": listing.len()}));
+    }
+    rec.finish(rep);
+}
+
+/// C08: INPUT v answered with "5" vs the same program with `v = 5` in place of the INPUT.
+pub fn record_inputassign(seed: u64, n: usize, out: &str, rep: &mut Report) {
+    let mut rec = Rec::new(out);
+    for i in 0..n as u64 {
+        let lines = gen_program(seed, i, true, false, 0.03);
+        if !lines.iter().any(|l| l.contains("INPUT")) {
+            continue;
+        }
+        let mut rng = StdRng::seed_from_u64(seed ^ (i << 17) ^ 0xC08);
+        let replies: Vec<String> = (0..60).map(|_| "5".to_string()).collect();
+        let cfg = RunCfg { lines: &lines, replies: &replies, trace: false, warn: false, break_p: 0.0, inspections: &[], budget: 1500, seed: Some(3) };
+        let (ta, la) = run_scheduled(&mut rec, 2 * i, &cfg, &mut rng, json!({"driver": "inputassign", "role": "input", "program": lines}));
+        // replace every "INPUT <target>" by "<target> = 5"
+        let assigned: Vec<String> = lines.iter().map(|l| replace_inputs(l)).collect();
+        let cfg2 = RunCfg { lines: &assigned, ..cfg };
+        let (tb, lb) = run_scheduled(&mut rec, 2 * i + 1, &cfg2, &mut rng, json!({"driver": "inputassign", "role": "assignment", "program": assigned}));
+        rep.count("pairs");
+        let strip = |t: &Transcript| -> Vec<String> { t.items.iter().filter(|s| !s.starts_with("INPUT<-")).cloned().collect() };
+        if strip(&ta) != strip(&tb) || state_digest(&la) != state_digest(&lb) {
+            rep.violation("C08", "input_differs_from_assignment", json!({}),
+                json!({"program": lines, "with_assignments": assigned, "input_run": ta.items, "assignment_run": tb.items}));
+        } else {
+            rep.count("pairs_nontrivial");
+        }
+        rep.sample(json!({"program": lines}));
+    }
+    rec.finish(rep);
+}
+
+fn replace_inputs(line: &str) -> String {
+    // "INPUT X" / "INPUT P(3)" are generated with a single target that runs to the next " : " / " ELSE " / end
+    let mut out = String::new();
+    let mut rest = line;
+    while let Some(pos) = rest.find("INPUT ") {
+        out.push_str(&rest[..pos]);
+        let after = &rest[pos + 6..];
+        let end = [after.find(" : "), after.find(" ELSE ")].iter().flatten().min().copied().unwrap_or(after.len());
+        out.push_str(&format!("{} = 5", &after[..end]));
+        rest = &after[end..];
+    }
+    out.push_str(rest);
+    out
+}
+
+const PROBES: &[&str] = &["CONT", "RETURN", "NEXT I", "NEXT J", "READ A", "READ S$", "PRINT FNA(1)", "GOTO 10", "PRINT A;B;S$", "PRINT P(1)", "LIST", "RUN"];
+
+/// C11: run a program to a random suspension point, edit it, then probe.
+pub fn record_editprobe(seed: u64, n: usize, out: &str, rep: &mut Report) {
+    let mut rec = Rec::new(out);
+    for i in 0..n as u64 {
+        let lines = gen_program(seed, i, true, true, 0.05);
+        let mut rng = StdRng::seed_from_u64(seed ^ (i << 17) ^ 0xC11);
+        let mut s = rec.reset(i, false, false, json!({"driver": "editprobe", "program": lines}));
+        for l in &lines {
+            rec.call(i, &mut s, call_submit(l));
+        }
+        rec.call(i, &mut s, call_submit("RUN"));
+        // run to a random suspension point
+        let target = rng.gen_range(0..120);
+        let mut k = 0;
+        while !s.dead && k < target {
+            match s.mode() {
+                "running" => { rec.call(i, &mut s, call_simple("continue")); }
+                "awaiting" => {
+                    if rng.gen_bool(0.3) { break; }
+                    rec.call(i, &mut s, call_provide(&reply_pool(&mut rng)));
+                }
+                _ => break,
+            }
+            k += 1;
+        }
+        if !s.dead && (s.mode() == "running" || s.mode() == "awaiting") {
+            rec.call(i, &mut s, call_simple("break"));
+        }
+        if s.dead || s.mode() != "idle" {
+            continue;
+        }
+        rep.count("suspensions");
+        // an edit
+        let snap = abasic_core::verif::snapshot(&s.interp);
+        let cur = snap.breakpoint.as_ref().and_then(|b| b.line);
+        let frame_line = snap.stack.last().and_then(|f| f.return_location.line);
+        let edit = match rng.gen_range(0..7) {
+            0 => "7 REM new line".to_string(),
+            1 => cur.map(|l| format!("{} PRINT \"replaced\"", l)).unwrap_or("15 REM".to_string()),
+            2 => cur.map(|l| format!("{}", l)).unwrap_or("10".to_string()),
+            3 => frame_line.map(|l| format!("{}", l)).unwrap_or("20".to_string()),
+            4 => "30 PRINT \"unterminated".to_string(),
+            5 => cur.map(|l| format!("{} %", l)).unwrap_or("10 %".to_string()),
+            _ => "99999 DATA 42, \"edited\"".to_string(),
+        };
+        rec.call(i, &mut s, call_submit(&edit));
+        // probes
+        let np = rng.gen_range(1..=4);
+        for _ in 0..np {
+            if s.dead || s.mode() != "idle" {
+                break;
+            }
+            let p = PROBES[rng.gen_range(0..PROBES.len())];
+            rec.call(i, &mut s, call_submit(p));
+            let mut guard = 0;
+            while !s.dead && guard < 40 {
+                match s.mode() {
+                    "running" => { rec.call(i, &mut s, call_simple("continue")); }
+                    "awaiting" => { rec.call(i, &mut s, call_simple("break")); }
+                    _ => break,
+                }
+                guard += 1;
+            }
+        }
+        rep.sample(json!({"program_lines": lines.len(), "edit": edit}));
+    }
+    rec.finish(rep);
+}
+
+fn fuzz_line(rng: &mut StdRng) -> String {
+    const STMTS: &[&str] = &[
+        "PRINT 1", "X = X + 1", "10 PRINT X", "20 GOTO 10", "30 INPUT A$", "40 STOP", "50 GOSUB 50", "10", "20", "RUN", "CONT", "LIST", "NEW",
+        "TRACE", "NOTRACE", "FOR I = 1 TO 3", "NEXT I", "RETURN", "DIM A(3,3)", "A(1,1) = 2", "READ Q", "RESTORE", "15 DATA 1,2,x",
+        "DEF F(X) = X", "25 DEF F(X) = X * F(X - 1)", "PRINT F(3)", "END", "STOP", "INPUT Z", "IF X THEN 10", "IF 1 THEN PRINT 2 ELSE PRINT 3",
+        "GOTO 10", "GOSUB 40", "PRINT 1/0", "PRINT \"a\" + 1", "PRINT RND(1)", "PRINT RND(-1)", "run", " list", "cont",
+    ];
+    const SOUP: &[&str] = &["PRINT", "(", ")", "\"", "1", "99999999999999999999", "4294967295", "9223372036854775808", ".", "A", "$", ",", ";", ":", "=", "<", ">",
+        "+", "-", "*", "/", "^", "IF", "THEN", "ELSE", "FOR", "TO", "NEXT", "DIM", "DATA", "REM", "GOSUB", "GOTO", "é", "😊", "ı", "ß", " ", "\t", "%", "INPUT", "DEF", "ABS", "INT", "RND", "AND", "OR", "NOT", "18446744073709551615 ", "0 "];
+    match rng.gen_range(0..10) {
+        0..=5 => STMTS[rng.gen_range(0..STMTS.len())].to_string(),
+        6..=8 => {
+            let n = rng.gen_range(1..=8);
+            (0..n).map(|_| SOUP[rng.gen_range(0..SOUP.len())]).collect::<Vec<_>>().join(if rng.gen_bool(0.5) { " " } else { "" })
+        }
+        _ => {
+            let depth = [3usize, 20, 60][rng.gen_range(0..3)];
+            match rng.gen_range(0..4) {
+                0 => format!("PRINT {}1{}", "(".repeat(depth), ")".repeat(depth)),
+                1 => format!("PRINT {}1{}", "ABS(".repeat(depth), ")".repeat(depth)),
+                2 => format!("{}PRINT 1", "IF 1 THEN ".repeat(depth)),
+                _ => format!("DIM B({})", vec!["10"; depth.min(25)].join(",")),
+            }
+        }
+    }
+}
+
+/// C01 / C16: random protocol-respecting sessions over valid statements, token
+/// soup, raw UTF-8 and boundary numerals.  Monitors run in the replayer-side
+/// `monitors` function; here we only count.
+pub fn record_fuzz(seed: u64, n: usize, out: &str, rep: &mut Report) {
+    let mut rec = Rec::new(out);
+    for i in 0..n as u64 {
+        let mut rng = StdRng::seed_from_u64(seed ^ (i << 20) ^ 0xC01);
+        let mut s = rec.reset(i, rng.gen_bool(0.3), rng.gen_bool(0.3), json!({"driver": "fuzz"}));
+        let len = rng.gen_range(5..60);
+        for _ in 0..len {
+            if s.dead {
+                break;
+            }
+            let ev = match s.mode() {
+                "idle" => {
+                    if rng.gen_bool(0.03) {
+                        let seeds = [0u64, 1, (1 << 33) - 1, 1 << 33, 1 << 43, 1 << 44, 1 << 63, u64::MAX, 11081109438222];
+                        rec.call(i, &mut s, call_randomize(seeds[rng.gen_range(0..seeds.len())]))
+                    } else {
+                        rec.call(i, &mut s, call_submit(&fuzz_line(&mut rng)))
+                    }
+                }
+                "running" => {
+                    if rng.gen_bool(0.1) { rec.call(i, &mut s, call_simple("break")) } else { rec.call(i, &mut s, call_simple("continue")) }
+                }
+                "awaiting" => {
+                    if rng.gen_bool(0.2) { rec.call(i, &mut s, call_simple("break")) } else { rec.call(i, &mut s, call_provide(&reply_pool(&mut rng))) }
+                }
+                "new" => rec.call(i, &mut s, call_simple("replace")),
+                _ => break,
+            };
+            rep.count("calls");
+            let _ = &ev;
+        }
+        rep.count("sessions");
+    }
+    rec.finish(rep);
 }
